@@ -160,6 +160,10 @@ func (u c15LazyUser) String() string {
 	return "alice"
 }
 
+type c15PanickingValuer struct{}
+
+func (c15PanickingValuer) LogValue() logslog.Value { panic("c15: LogValue panics") }
+
 func runC15(r *run) {
 	g := &rng{s: r.seed*472882027 + 15}
 	r.rule = "log/slog records (all level values, every value kind, nested groups, LogValuer chains, LogValuers inside groups) through handlers of all option combinations, directly (explicit time) and through log/slog.Logger; Enabled over all (logger level, debug mode, log/slog level); std-log messages of every newline shape through bridges of all (logger level, bridge severity) pairs; Entry.Log over log/slog levels -30..40; distinct = distinct (path, options, level, value kinds present / message shape); non-trivial = records with a group or LogValuer, messages ending in a newline"
@@ -511,6 +515,39 @@ func runC15(r *run) {
 		if string(got) != want {
 			r.violate(violation{What: "a record handled through the adapter does not carry exactly its own attributes (another record was formatted while it was being written)",
 				Input: map[string]any{"round": round, "call": `Info("request served", "actor", <value whose String() logs natively>, "bytes", n, "path", "/index.html", "status", 200)`}, Expected: want, Actual: string(got)})
+		}
+	}
+
+	// ---- a LogValuer whose LogValue panics (log/slog's Resolve turns that into an error value): the record is still
+	// emitted once, with its other attributes, and the call returns
+	for round := 0; round < 8; round++ {
+		out := &recorder{}
+		l := slog.New("c15badvaluer").SetWriter(out).SetErrorWriter(out)
+		lg := logslog.New(slog.NewSlogHandler(l, &slog.HandlerOptions{NoColor: true, NoSource: true, JSON: round%2 == 0, Level: slog.InfoLevel}))
+		var bad any = c15PanickingValuer{}
+		escaped := ""
+		func() {
+			defer func() {
+				if p := recover(); p != nil {
+					escaped = fmt.Sprint(p)
+				}
+			}()
+			if round >= 4 {
+				lg.Warn("a bad LogValuer inside a group", "before", 1, logslog.Group("g", logslog.Any("bad", bad), logslog.Int("in", 3)), "after", 2)
+			} else {
+				lg.Warn("a bad LogValuer", "before", 1, "bad", bad, "after", 2)
+			}
+		}()
+		w := out.take()
+		r.seen(fmt.Sprintf("bad-valuer|%d", round))
+		text := ""
+		if len(w) == 1 {
+			text = string(w[0])
+		}
+		if escaped != "" || len(w) != 1 || !strings.Contains(text, "before") || !strings.Contains(text, "after") {
+			r.violate(violation{What: "a record with a LogValuer that panics was not emitted once with its other attributes",
+				Input:  map[string]any{"valuer": fmt.Sprintf("%T", bad), "inside_a_group": round >= 4, "json": round%2 == 0},
+				Actual: fmt.Sprintf("panic escaped: %q; records: %q", escaped, w)})
 		}
 	}
 
